@@ -55,13 +55,16 @@ impl<'a> Ctx<'a> {
     fn quirk(&self, i: usize) -> &'static str {
         let b = &self.bind[i];
         let name = &self.p.toks[i].spell;
-        if b.starts_with("type:") && self.role[i] == "use" {
+        if (b.starts_with("type:") || b == "builtin:int") && self.role[i] == "use" {
             if let Some(pd) = self.p.nodes.iter().find(|n| n.kind == "ProcDec" && n.first <= i && i <= n.last && n.last != usize::MAX) {
                 let hidden = self.decls.values().any(|d| (d["kind"] == "param" || d["kind"] == "local") && d["owner"] == pd.attr.as_str() && d["name"] == name.as_str());
                 if hidden {
                     return ":type-name-hidden-by-local";
                 }
             }
+        }
+        if (b.starts_with("local:") || b.starts_with("param:")) && name == "int" {
+            return ":variable-named-int";
         }
         if b.starts_with("local:") || b.starts_with("param:") {
             let anon = self.decls.get(b).map(|d| d["creator"] == b.as_str()).unwrap_or(false);
